@@ -241,4 +241,111 @@ theorem keyCopyL_diff (S : Schema) (A B : List DNode) (hA : wfForest S A = true)
   have := keyCopyGoal_all S (Nat.max (heightL A) (heightL B) + 1) true A B hA.1.1 hB.1.1 hA.1.2 hB.1.2
   simpa [diff, diffFull] using this
 
+
+/-! ### the key conditions of `mergeSafe` follow -/
+
+theorem dupInst_list_nkeys {S : Schema} {s : Nat} (hl : S.isKind s .list = true) (hd : S.isDupInst s = true) : S.nkeys s = 0 := by
+  unfold Schema.isDupInst at hd
+  unfold Schema.isKind Schema.kind? at hl
+  unfold Schema.nkeys
+  cases hg : S.get? s with
+  | none => simp [hg] at hl
+  | some n =>
+    simp only [hg, Option.map_some, beq_iff_eq, Option.some.injEq] at hl
+    simp only [hg, hl, Bool.or_eq_true, Bool.and_eq_true, beq_iff_eq] at hd ⊢
+    rcases hd with h | h
+    · exact h.2
+    · exact absurd h.1 (by decide)
+
+theorem dataEqL_keys : ∀ (l1 l2 : List DNode), (∀ k ∈ l1, k.isTerm = true ∧ k.flags.dflt = false) →
+    (∀ k ∈ l2, k.isTerm = true ∧ k.flags.dflt = false) → keyPairs l1 = keyPairs l2 → dataEqL true l1 l2 = true
+  | [], [], _, _, _ => rfl
+  | [], _ :: _, _, _, h => by simp [keyPairs] at h
+  | _ :: _, [], _, _, h => by simp [keyPairs] at h
+  | a :: as, b :: bs, h1, h2, h => by
+    simp only [keyPairs, List.map_cons, List.cons.injEq, Prod.mk.injEq] at h
+    obtain ⟨⟨hs, hv⟩, hr⟩ := h
+    obtain ⟨hat, had⟩ := h1 a (List.mem_cons_self ..)
+    obtain ⟨hbt, hbd⟩ := h2 b (List.mem_cons_self ..)
+    simp only [dataEqL, Bool.and_eq_true]
+    refine ⟨?_, dataEqL_keys as bs (fun k hk => h1 k (List.mem_cons_of_mem _ hk)) (fun k hk => h2 k (List.mem_cons_of_mem _ hk)) hr⟩
+    cases a with
+    | inner => simp [DNode.isTerm] at hat
+    | term sa fa ma va =>
+      cases b with
+      | inner => simp [DNode.isTerm] at hbt
+      | term sb fb mb vb =>
+        simp only [DNode.sid, DNode.val, DNode.flags] at hs hv had hbd
+        simp [dataEq, hs, hv, had, hbd]
+
+mutual
+theorem safeP_of_keyCopy (S : Schema) (cur sin : Option Op) (t : DNode) : ∀ (src : DNode), keyCopyN S t → keyCopyN S src →
+    matchP S src t = true → safeP0 S cur sin t src = true → safeP S cur sin t src = true
+  | .term s f m v, _, _, _, h => by simpa [safeP, safeP0] using h
+  | .inner s f m ks, ht, hs, hm, h => by
+    simp only [safeP0, Bool.and_eq_true, Bool.not_eq_eq_eq_not, Bool.not_true] at h
+    obtain ⟨⟨htnt, hmo⟩, hk0⟩ := h
+    cases t with
+    | term => simp [DNode.isTerm] at htnt
+    | inner st ft mt kt =>
+      have hss : st = s := matchP_sid hm
+      subst hss
+      simp only [keyCopyN] at ht hs
+      obtain ⟨t1, t2, _, t4⟩ := ht
+      obtain ⟨s1, s2, s3, s4⟩ := hs
+      have hkp : keyPairs (keysOf S kt) = keyPairs (keysOf S ks) := by
+        by_cases hl : S.isKind st .list = true
+        · by_cases hn : S.nkeys st = 0
+          · have hk : kkOf S st = [] := by simp [kkOf, hl, keySids, hn]
+            rw [hk] at t1 s1
+            rw [List.map_eq_nil_iff.mp t1, List.map_eq_nil_iff.mp s1]
+          · have hd : S.isDupInst st = false := by
+              cases hd : S.isDupInst st
+              · rfl
+              · exact absurd (dupInst_list_nkeys hl hd) hn
+            have hkind : S.kind? st = some .list := by simpa [Schema.isKind] using hl
+            simp only [matchP, DNode.sid, beq_self_eq_true, Bool.true_and, isLL, hl, Bool.true_or, Bool.not_true, Bool.false_or,
+              instMatch, hd, Bool.false_eq_true, ↓reduceIte, sameInst, hkind, DNode.kids] at hm
+            have hn' : (S.nkeys st == 0) = false := by simpa using hn
+            simp only [hn', Bool.false_eq_true, ↓reduceIte] at hm
+            exact (keysEq_iff _ _).mp hm
+        · have hk : kkOf S st = [] := by simp [kkOf, hl]
+          rw [hk] at t1 s1
+          rw [List.map_eq_nil_iff.mp t1, List.map_eq_nil_iff.mp s1]
+      simp only [safeP, Bool.and_eq_true, Bool.not_eq_eq_eq_not, Bool.not_true, DNode.kids]
+      refine ⟨⟨⟨⟨htnt, hmo⟩, ?_⟩, ?_⟩, ?_⟩
+      · rw [Bool.or_eq_true]
+        exact Or.inr (dataEqL_keys _ _ t2 s2 hkp)
+      · rw [List.all_eq_true]
+        intro k hk
+        rw [List.all_eq_true]
+        intro c hc
+        have hki : k.sid ∈ kkOf S st := by rw [← t1]; exact List.mem_map_of_mem hk
+        simpa using s3 c hc k.sid hki
+      · apply safeK_of_keyCopy S _ _ (noKeys S kt) ks ?_ s4 hk0
+        intro x hx
+        exact (keyCopyL_iff S kt).mp t4 x ((noKeys_sublist S kt).subset hx)
+theorem safeK_of_keyCopy (S : Schema) (cur sin : Option Op) (T : List DNode) : ∀ (cs : List DNode), (∀ t ∈ T, keyCopyN S t) →
+    keyCopyL S cs → safeK0 S cur sin T cs = true → safeK S cur sin T cs = true
+  | [], _, _, _ => rfl
+  | c :: cs, hT, hcs, h => by
+    simp only [safeK0, Bool.and_eq_true, List.all_eq_true, Bool.or_eq_true, Bool.not_eq_eq_eq_not, Bool.not_true] at h
+    simp only [keyCopyL] at hcs
+    simp only [safeK, Bool.and_eq_true, List.all_eq_true, Bool.or_eq_true, Bool.not_eq_eq_eq_not, Bool.not_true]
+    refine ⟨?_, safeK_of_keyCopy S cur sin T cs hT hcs.2 h.2⟩
+    intro t ht
+    cases hm : matchP S c t
+    · exact Or.inl rfl
+    · right
+      rcases h.1 t ht with h1 | h1
+      · rw [hm] at h1; cases h1
+      · exact safeP_of_keyCopy S cur sin t c (hT t ht) hcs.1 hm h1
+end
+
+/-- for COMPUTED diffs of well-formed trees `mergeSafe` is `mergeSafe0`: the conditions on the key copies hold by themselves -/
+theorem mergeSafe_of_computed (S : Schema) (A B C : List DNode) (hA : wfForest S A = true) (hB : wfForest S B = true)
+    (hC : wfForest S C = true) (h : mergeSafe0 S (diff S true A B) (diff S true B C) = true) :
+    mergeSafe S (diff S true A B) (diff S true B C) = true :=
+  safeK_of_keyCopy S none none _ _ ((keyCopyL_iff S _).mp (keyCopyL_diff S A B hA hB)) (keyCopyL_diff S B C hB hC) h
+
 end LyModel.Diff
